@@ -297,6 +297,15 @@ def noiseOf : Char → Option Noise
   | 'b' => some ⟨[.enter .blockCall, .missingInclude, .leave], true⟩
   -- a block including a template that fails, rendered by a callback that swallows the error
   | 'c' => some ⟨[.enter .blockCall, .enter .includeTpl, .leave, .leave], true⟩
+  -- a template the loader compiles lazily (deep expression / deep AST / deep statements): parsed
+  -- on top of the current activations, then included like any other
+  | 'd' => some ⟨[.enter .includeTpl, .leave], false⟩
+  | 'e' => some ⟨[.enter .includeTpl, .leave], false⟩
+  | 'f' => some ⟨[.enter .includeTpl, .leave], false⟩
+  -- a lazily loaded template that does not compile (syntax error / parser recursion limit):
+  -- `get_template` fails before any charge is taken; rendered by a callback that swallows the error
+  | 'g' => some ⟨[.enter .blockCall, .missingInclude, .leave], true⟩
+  | 'h' => some ⟨[.enter .blockCall, .missingInclude, .leave], true⟩
   | _ => none
 
 /-- run a depth-neutral statement: the state afterwards is the state before -/
@@ -318,11 +327,25 @@ def edgeEvents (fam : Char) (k : Char) (first : Bool) : Option (List Ev) :=
   | 'T', 'K' => some [Ev.enter .macroCall, Ev.enter .callerCall, Ev.enter .includeTpl]
   | 'T', 'B' => some [Ev.enter .blockCall, Ev.enter .includeTpl]
   | 'T', 'L' => some [Ev.push, Ev.push, Ev.enter .includeTpl]
+  | 'T', 'Y' => some [Ev.enter .macroCall, Ev.push, Ev.enter .includeTpl]
   | 'M', 'M' => some [Ev.enter .macroCall]
   | 'M', 'A' => some [Ev.enter .macroCall]
   | 'M', 'C' => some [Ev.enter .macroCall, Ev.enter .callerCall, Ev.enter .macroCall]
   | 'M', 'L' => some [Ev.push, Ev.push, Ev.enter .macroCall]
   | 'M', 'J' => some [Ev.enter .includeTpl, Ev.enter .macroCall]
+  -- through Rust: State::call_macro, Value::call, Value::call_method, a Rust filter/test calling
+  -- call_macro (via map / select / State::apply_filter / State::perform_test / a filter block)
+  | 'M', 'Q' => some [Ev.enter .macroCall]
+  | 'M', 'O' => some [Ev.enter .macroCall]
+  | 'M', 'H' => some [Ev.enter .macroCall]
+  | 'M', 'F' => some [Ev.enter .macroCall]
+  | 'M', 'E' => some [Ev.enter .macroCall]
+  | 'M', 'G' => some [Ev.enter .macroCall]
+  | 'M', 'U' => some [Ev.enter .macroCall]
+  | 'M', 'D' => some [Ev.enter .macroCall]
+  -- nested call blocks: caller() chains
+  | 'M', 'N' => some [Ev.enter .macroCall, Ev.enter .callerCall, Ev.enter .macroCall,
+      Ev.enter .callerCall, Ev.enter .macroCall]
   | 'B', 'B' => some [Ev.enter .blockCall]
   | 'B', 'V' => some [Ev.enter .blockCall]
   | 'B', 'R' => some [Ev.enter .blockCall]
